@@ -69,6 +69,86 @@ def _run_unit(arg):
                 'info': {'key': name, 'seconds': round(time.time() - t0, 3)}}
 
 
+def _pool_worker(tasks, results):
+    while True:
+        item = tasks.get()
+        if item is None:
+            return
+        i, w = item
+        results.put(('start', i, os.getpid(), time.time()))
+        results.put(('done', i, _run_unit(w)))
+
+
+def run_pool(work, jobs, unit_timeout):
+    '''Run the units on `jobs` worker processes.  A unit that does not come back within unit_timeout seconds (a solver call
+    that ignores its own budget - z3's push() and some quantifier loops do) is killed: it becomes an engine error of that
+    unit ("did not return"), never a verdict, and the other units are unaffected.'''
+    ctx = mp.get_context('fork')
+    n = max(1, min(jobs, len(work)))
+    tasks, results = ctx.Queue(), ctx.Queue()
+    for item in enumerate(work):
+        tasks.put(item)
+    procs = {}
+
+    def spawn():
+        p = ctx.Process(target=_pool_worker, args=(tasks, results), daemon=True)
+        p.start()
+        procs[p.pid] = p
+    for _ in range(n):
+        spawn()
+    outs = [None] * len(work)
+    running = {}        # task index -> (pid, start)
+    done = 0
+    while done < len(work):
+        try:
+            msg = results.get(timeout=2)
+        except Exception:      # noqa  (queue.Empty)
+            msg = None
+        if msg is not None:
+            if msg[0] == 'start':
+                running[msg[1]] = (msg[2], msg[3])
+            else:
+                _, i, out = msg
+                if outs[i] is None:
+                    outs[i] = out
+                    done += 1
+                running.pop(i, None)
+        now = time.time()
+        for i, (pid, t0) in list(running.items()):
+            if now - t0 > unit_timeout and outs[i] is None:
+                p = procs.pop(pid, None)
+                if p is not None:
+                    p.kill()
+                    p.join(5)
+                w = work[i]
+                outs[i] = {'unit': w[1], 'kind': w[0], 'ok': False, 'results': [],
+                           'error': f'EngineError: the unit did not return within {unit_timeout} s (a solver call ignored its budget); killed',
+                           'info': {'key': w[1], 'seconds': round(now - t0, 1)}}
+                done += 1
+                running.pop(i, None)
+                spawn()
+        # a worker that died on its own (out of memory, ...) loses its task: report it the same way
+        for pid, p in list(procs.items()):
+            if not p.is_alive() and p.exitcode not in (0, None):
+                procs.pop(pid)
+                for i, (rpid, t0) in list(running.items()):
+                    if rpid == pid and outs[i] is None:
+                        w = work[i]
+                        outs[i] = {'unit': w[1], 'kind': w[0], 'ok': False, 'results': [],
+                                   'error': f'EngineError: the worker process of this unit died (exit code {p.exitcode})',
+                                   'info': {'key': w[1], 'seconds': round(now - t0, 1)}}
+                        done += 1
+                        running.pop(i, None)
+                spawn()
+    for _ in procs:
+        tasks.put(None)
+    for p in procs.values():
+        p.join(2)
+        if p.is_alive():
+            p.kill()
+    return outs
+
+
 def merge_shards(outs):
     '''Shards of one function (parallel exploration below different decision prefixes) are folded into one unit; an
     obligation generated above the prefix is generated by every shard and counted once.'''
@@ -163,11 +243,7 @@ def run_check(pid, tier, seed, jobs, only=None, verbose=False, record_baseline=F
     if not work:
         print(f'no units registered for {pid}')
         return 3
-    if jobs > 1 and len(work) > 1:
-        with mp.get_context('fork').Pool(min(jobs, len(work))) as pool:
-            outs = pool.map(_run_unit, work, chunksize=1)
-    else:
-        outs = [_run_unit(w) for w in work]
+    outs = run_pool(work, jobs, 900 if tier == 'quick' else 2700)
     if sharded:
         outs = merge_shards(outs)
 
